@@ -101,67 +101,53 @@ def toText (v : Version) : Text :=
   (if v.pre.isEmpty then [] else '-' :: v.pre) ++
   (if v.build.isEmpty then [] else '+' :: v.build)
 
-def ordThen (a b : Ordering) : Ordering := match a with | .eq => b | o => o
+/-! Ordering.  Written with core's comparator combinators (`compareLex`,
+`compareOn`, `List.compareLex`) so that orientation and transitivity follow
+from core's `Std.OrientedCmp` / `Std.TransCmp` instances. -/
 
-def cmpNat (a b : Nat) : Ordering := if a < b then .lt else if b < a then .gt else .eq
+def cmpNat (a b : Nat) : Ordering := compare a b
 
-/-- one prerelease identifier against another -/
-def cmpPreIdent (l r : Text) : Option Ordering :=   -- `none` = "return early" is folded in below
-  match l.all isAsciiDigit, r.all isAsciiDigit with
-  | true, true => some (ordThen (cmpNat l.length r.length) (cmpText l r))
-  | true, false => some .lt
-  | false, true => some .gt
-  | false, false => some (cmpText l r)
+/-- byte-wise `str` comparison = code-point-wise comparison (UTF-8 preserves order) -/
+def cmpText : Text → Text → Ordering := List.compareLex (compareOn Char.toNat)
 
-def cmpPreIdents : List Text → List Text → Ordering
-  | [], [] => .eq
-  | [], _ :: _ => .lt
-  | _ :: _, [] => .gt
-  | l :: ls, r :: rs =>
-    match cmpPreIdent l r with
-    | some .eq => cmpPreIdents ls rs
-    | some o => o
-    | none => .eq
+/-- comparator on the image of `f` -/
+def cmpVia {α β} (f : α → β) (c : β → β → Ordering) (a b : α) : Ordering := c (f a) (f b)
 
-/-- `Ord for Prerelease` -/
-def cmpPre (a b : Text) : Ordering :=
-  if a == b then .eq
-  else if a.isEmpty then .gt
-  else if b.isEmpty then .lt
-  else cmpPreIdents (splitChar '.' a) (splitChar '.' b)
+def isNumericIdent (t : Text) : Bool := t.all isAsciiDigit
+
+/-- one prerelease identifier against another (`Ord for Prerelease`, loop body):
+    numeric < alphanumeric; numeric: by length then text; alphanumeric: by text -/
+def cmpPreIdent : Text → Text → Ordering :=
+  compareLex (compareOn fun t => !isNumericIdent t)
+    (compareLex (compareOn fun t => if isNumericIdent t then t.length else 0) cmpText)
+
+/-- `Ord for Prerelease`: empty (a release) is greatest; otherwise identifier-wise,
+    a longer list of equal identifiers is greater -/
+def cmpPre : Text → Text → Ordering :=
+  compareLex (compareOn fun t => t.isEmpty) (cmpVia (splitChar '.') (List.compareLex cmpPreIdent))
 
 def trimZeros : Text → Text
   | '0' :: cs => trimZeros cs
   | t => t
 
-def cmpBuildIdent (l r : Text) : Ordering :=
-  match l.all isAsciiDigit, r.all isAsciiDigit with
-  | true, true =>
-    let lv := trimZeros l; let rv := trimZeros r
-    ordThen (cmpNat lv.length rv.length) (ordThen (cmpText lv rv) (cmpNat l.length r.length))
-  | true, false => .lt
-  | false, true => .gt
-  | false, false => cmpText l r
-
-def cmpBuildIdents : List Text → List Text → Ordering
-  | [], [] => .eq
-  | [], _ :: _ => .lt
-  | _ :: _, [] => .gt
-  | l :: ls, r :: rs =>
-    match cmpBuildIdent l r with
-    | .eq => cmpBuildIdents ls rs
-    | o => o
+/-- one build identifier against another (`Ord for BuildMetadata`, loop body) -/
+def cmpBuildIdent : Text → Text → Ordering :=
+  compareLex (compareOn fun t => !isNumericIdent t)
+    (compareLex (compareOn fun t => if isNumericIdent t then (trimZeros t).length else 0)
+      (compareLex (cmpVia (fun t => if isNumericIdent t then trimZeros t else t) cmpText)
+        (compareOn fun t => if isNumericIdent t then t.length else 0)))
 
 /-- `Ord for BuildMetadata` -/
-def cmpBuild (a b : Text) : Ordering :=
-  if a == b then .eq else cmpBuildIdents (splitChar '.' a) (splitChar '.' b)
+def cmpBuild : Text → Text → Ordering := cmpVia (splitChar '.') (List.compareLex cmpBuildIdent)
 
 /-- derived `Ord for Version` : lexicographic over the five fields -/
-def cmp (a b : Version) : Ordering :=
-  ordThen (cmpNat a.major b.major) <|
-  ordThen (cmpNat a.minor b.minor) <|
-  ordThen (cmpNat a.patch b.patch) <|
-  ordThen (cmpPre a.pre b.pre) (cmpBuild a.build b.build)
+def cmp : Version → Version → Ordering :=
+  compareLex (compareOn Version.major) <|
+  compareLex (compareOn Version.minor) <|
+  compareLex (compareOn Version.patch) <|
+  compareLex (cmpVia Version.pre cmpPre) (cmpVia Version.build cmpBuild)
+
+def ordThen (a b : Ordering) : Ordering := a.then b
 
 def lt (a b : Version) : Bool := cmp a b == .lt
 def le (a b : Version) : Bool := cmp a b != .gt
